@@ -15,17 +15,17 @@ import (
 )
 
 type objEdge struct {
-	Ver string   `json:"ver"`
-	F   []string `json:"f"`
-	Op  string   `json:"op"`
-	A   []int    `json:"a"`
-	V   []int    `json:"v"`
-	B   []int    `json:"b"`
+	Ver string    `json:"ver"`
+	F   []string  `json:"f"`
+	Op  string    `json:"op"`
+	A   []int     `json:"a"`
+	V   []int     `json:"v"`
+	B   []int     `json:"b"`
 	Seq [][][]int `json:"seq"`
-	OK  bool     `json:"ok"`
-	Err errJ     `json:"err"`
-	T   []string `json:"t"`
-	Val string   `json:"val"`
+	OK  bool      `json:"ok"`
+	Err errJ      `json:"err"`
+	T   []string  `json:"t"`
+	Val string    `json:"val"`
 }
 
 type objState struct {
